@@ -70,3 +70,8 @@ SPEC = dict(
                  "serialising receiver observes"],
     extra_steps=[inversion_replay],
 )
+
+# the hub's part of the property (mDNS report -> VisibleRemoteServicesUpdated): hub-model case stream of C10
+SPEC["streams"] = [dict(imports="From Ship Require Import Base HubModel HubStreams.", case_type="c10_case", check_fn="check_hub_C17",
+                        drivers=[dict(bin="hubunit", args=["-prop", "C10"], n_quick=600, n_thorough=20000, timeout=2400)],
+                        codes={130: "visible_services_list_differs_from_reported_entries"})]
